@@ -488,6 +488,57 @@ theorem result_not_excluded {E : Env} {k : Kind} {cfg : Cfg} {name : List Char}
   · exact hin
 
 
+/-- one step of the `parse_object_fields` loop: both branches (boolean schema / ordinary schema) continue
+with the SAME excludes, extended by the name just given -/
+theorem foldProps_cons (E : Env) (k : Kind) (cfg : Cfg) (n : List Char) (isBool : Bool)
+    (ps : List (List Char × Bool)) (excl : List (List Char)) :
+    foldProps E k cfg ((n, isBool) :: ps) excl =
+      match getValidFieldNameAndAlias E k cfg n excl with
+      | .ok fa => (foldProps E k cfg ps (fa.1 :: excl)).map fun r => ((fa, isBool) :: r.1, r.2)
+      | .outOfFuel => .outOfFuel
+      | .error => .error := by
+  rw [foldProps]
+  cases isBool <;> rfl
+
+/-- case analysis of a successful step -/
+theorem foldProps_cons_ok {E : Env} {k : Kind} {cfg : Cfg} {n : List Char} {isBool : Bool}
+    {ps : List (List Char × Bool)} {excl : List (List Char)} {fs : List FieldOut} {ex : List (List Char)}
+    (h : foldProps E k cfg ((n, isBool) :: ps) excl = .ok (fs, ex)) :
+    ∃ fa fs', getValidFieldNameAndAlias E k cfg n excl = .ok fa ∧
+      foldProps E k cfg ps (fa.1 :: excl) = .ok (fs', ex) ∧ fs = (fa, isBool) :: fs' := by
+  rw [foldProps_cons] at h
+  cases hfa : getValidFieldNameAndAlias E k cfg n excl with
+  | ok fa =>
+    rw [hfa] at h
+    simp only at h
+    cases hrest : foldProps E k cfg ps (fa.1 :: excl) with
+    | ok r =>
+      rw [hrest] at h
+      simp only [Res.map, Res.ok.injEq, Prod.mk.injEq] at h
+      obtain ⟨h1, h2⟩ := h
+      obtain ⟨r1, r2⟩ := r
+      simp only at h1 h2
+      subst h2
+      exact ⟨fa, r1, rfl, hrest, h1.symm⟩
+    | outOfFuel => rw [hrest] at h; simp [Res.map] at h
+    | error => rw [hrest] at h; simp [Res.map] at h
+  | outOfFuel => rw [hfa] at h; cases h
+  | error => rw [hfa] at h; cases h
+
+/-- without a hit in the user's `aliases` map the field name is a result of `get_valid_name` -/
+theorem field_name_not_excluded {E : Env} {k : Kind} {cfg : Cfg} {n : List Char} {excl : List (List Char)}
+    {fa : List Char × Option (List Char)} (hn : cfg.aliases.lookup n = none)
+    (h : getValidFieldNameAndAlias E k cfg n excl = .ok fa) : fa.1 ∉ excl := by
+  simp only [getValidFieldNameAndAlias, hn] at h
+  cases hv : getValidName E k cfg n excl false false with
+  | ok v =>
+    rw [hv] at h
+    simp only [Res.map, Res.ok.injEq] at h
+    subst h
+    exact result_not_excluded hv
+  | outOfFuel => rw [hv] at h; simp [Res.map] at h
+  | error => rw [hv] at h; simp [Res.map] at h
+
 /-! ### a concrete case map satisfying `CaseOK`: ASCII-only lower/upper (what CPython does on ASCII names) -/
 
 def asciiLower (c : Char) : Char := if isAsciiUpper c then Char.ofNat (c.toNat + 32) else c
